@@ -34,14 +34,20 @@ class QueryContract(Contract):
     methods = {('*', 'ansi_settings_at'), ('*', 'settings_at'), ('*', 'find_settings')}
 
     def pre(self, call):
-        return O.observe(call.recv)
+        # no observation before the call: these are pure queries, and a full scan beforehand would refresh any
+        # state the library keeps between queries - exactly what a single query after a few mutations must not need
+        return None
 
-    def post(self, call, o, result, exc):
+    def post(self, call, _none, result, exc):
         ctx = self.ctx
         L = self.L
-        n = len(o.text)
         if exc is not None:
             return
+        self._last_returned = result if call.name == 'ansi_settings_at' else None
+        if call.name == 'ansi_settings_at' and isinstance(result, list):
+            result = list(result)       # judge what was returned, not what later queries make of that list
+        o = O.observe(call.recv)
+        n = len(o.text)
         if call.name in ('ansi_settings_at', 'settings_at'):
             i = call.arg(0, 'idx')
             if not isinstance(i, int) or isinstance(i, bool):
@@ -55,10 +61,10 @@ class QueryContract(Contract):
                     ctx.violation('ansi_settings_at', {'value': o.describe(), 'idx': i, 'expected': exp, 'got': got}, call,
                                   mech='settings-at-outside' if not 0 <= i < n else 'settings-at')
                 # and it is a fresh list: mutating it must not change the value
-                if result is not None and isinstance(result, list):
-                    result.append('x')
+                if isinstance(self._last_returned, list):
+                    self._last_returned.append('x')
                     again = [str(s) for s in call.recv.ansi_settings_at(i)]
-                    result.pop()
+                    self._last_returned.pop()
                     if again != exp:
                         ctx.violation('ansi_settings_at-returns-internal-list', {'value': o.describe(), 'idx': i}, call,
                                       mech='settings-at-aliased')
@@ -158,6 +164,48 @@ def contracts(ctx, mon):
     return [QueryContract(ctx)]
 
 
+def swap_workshop(ctx, mon, rng, L):
+    """single queries interleaved with pairs of mutations that leave the *layout* of the markers as it was (a
+    setting removed from a range and another one applied to the same range, a setting replaced by an equal-valued
+    new one, two clears): any state a query keeps for the next query must not survive that"""
+    codes = ['31', '34', '1', '4', '32', '44']
+    n = rng.choice([6, 8, 10])
+    s = L.AnsiString('abcdefghij'[:n])
+    spans = []
+    with mon.quiet():
+        for _ in range(rng.randint(1, 3)):
+            a = rng.randint(0, n - 2)
+            b = rng.randint(a + 1, n)
+            c = rng.choice(codes)
+            s.apply_formatting(c, a, b)
+            spans.append((c, a, b))
+    ctx.sig('swap-workshop')
+    for _ in range(rng.randint(2, 5)):
+        try:
+            k = rng.randint(0, n - 1)
+            r = rng.random()
+            if r < 0.5:
+                s.settings_at(k)
+            elif r < 0.8:
+                s.ansi_settings_at(k)
+            else:
+                s.find_settings('[' + rng.choice(codes), rng.randint(0, k), None, rng.random() < 0.3)
+            with mon.quiet():
+                i = rng.randrange(len(spans))
+                c, a, b = spans[i]
+                c2 = rng.choice(codes)
+                s.remove_formatting('[' + c, a, b)
+                s.apply_formatting(c2, a, b)
+                spans[i] = (c2, a, b)
+        except Exception:
+            pass
+    try:
+        for k in rng.sample(range(n), min(n, 3)):
+            s.settings_at(k)
+    except Exception:
+        pass
+
+
 def drive(ctx, mon, tier, only_case=None):
     L = ctx.L
     sz = tier_sizes(tier)
@@ -184,6 +232,8 @@ def drive(ctx, mon, tier, only_case=None):
             return
         profile = 'mixed' if rng.random() < 0.25 else 'wf'
         history(L, rng, ex, rng.randint(1, sz['nops']), sz['maxlen'], profile, WEIGHTS)
+        for _ in range(3):
+            swap_workshop(ctx, mon, rng, L)
         for v in ansi_values(L, ex)[-5:]:
             o = safe_obs(mon, v)
             if o is None or len(o.text) > 80:
